@@ -119,6 +119,45 @@ impl FileDesc {
             )));
         }
 
+        if object.transfer_length > 0 {
+            // Refuse an object whose source blocks cannot be encoded with this OTI,
+            // instead of transmitting nothing but an empty close-object packet
+            let (a_large, a_small, nb_a_large, nb_blocks) = partition::block_partitioning(
+                oti.maximum_source_block_length as u64,
+                object.transfer_length,
+                oti.encoding_symbol_length as u64,
+            );
+
+            if nb_blocks == 0 {
+                return Err(FluteError::new(
+                    "Encoding symbol length and maximum source block length must not be 0",
+                ));
+            }
+
+            let source_block_lengths = [
+                (nb_a_large > 0).then_some(a_large),
+                (nb_a_large < nb_blocks).then_some(a_small),
+            ];
+            for k in source_block_lengths.into_iter().flatten() {
+                let parity = oti.max_number_of_parity_symbols as u64;
+                let is_encodable = match oti.fec_encoding_id {
+                    oti::FECEncodingID::ReedSolomonGF28
+                    | oti::FECEncodingID::ReedSolomonGF28UnderSpecified => {
+                        parity > 0 && k + parity <= 256
+                    }
+                    // The Raptor encoder is not fully specified for 2 or 3 source symbols
+                    oti::FECEncodingID::Raptor => k != 2 && k != 3,
+                    _ => true,
+                };
+                if !is_encodable {
+                    return Err(FluteError::new(format!(
+                        "Source blocks of {} symbols with {} parity symbols cannot be encoded with {:?}",
+                        k, parity, oti.fec_encoding_id
+                    )));
+                }
+            }
+        }
+
         if oti.fec_encoding_id == oti::FECEncodingID::RaptorQ
             || oti.fec_encoding_id == oti::FECEncodingID::Raptor
         {
